@@ -434,6 +434,42 @@ Definition Rat_pluseq (sg : Z) (t r : rat) : M unit :=
     I_set (T 102) (L (num r)) ;; I_set (T 103) (L (den r)) ;; Rat_pluseq_body sg t (T 102, T 103)
   else Rat_pluseq_body sg t r.
 
+(* ================================================================== the bodies as found before the repairs
+   (frag/C15.fix-*.diff); kept so that the defect each repair removes is a checked statement (ProofsOld.v) and
+   so that the extracted model can be run against an unrepaired tree *)
+Definition mr_sub_old (W p : Z) (r a b : loc) : M unit :=
+  c <- ru_lt (L a) (L b) ;;
+  if c then ru_sub W r (K p) (L b) ;; ru_add W r (L r) (L a)
+  else ru_sub W r (L a) (L b).
+Definition mr_div_old (W : Z) (same : bool) (p : Z) (r a b : loc) : M unit := mr_inv p r b ;; mr_mulin W same p r a.
+Definition mr_axpy_old (W : Z) (same : bool) (p : Z) (r a b c : loc) : M unit :=
+  if same then ru_copy r (L c) ;; ru_addmul W r (L a) (L b) ;; ru_modn r (L r) (K p)
+  else ru_lmul (T 0) (L a) (L b) ;; ru_modn r (L (T 0)) (K p) ;; ru_add W r (L r) (L c) ;;
+       g <- ru_ge (L r) (K p) ;; when g (ru_sub W r (L r) (K p)).
+Definition mr_maxpy_old (W : Z) (same : bool) (p : Z) (r a b c : loc) : M unit :=
+  mr_mul W same p r a b ;; mr_sub_old W p r c r.
+Definition Int_gcd5_old (g u v a b : loc) : M unit :=
+  stor v 1 ;;
+  I_gcdext g u v (L a) (L b) ;;
+  n <- I_neg0 (L g) ;; when n (Int_negin u ;; Int_negin v ;; Int_negin g).
+Definition Int_divmod_old (q r a b : loc) : M unit :=
+  I_tdiv_qr q r (L a) (L b) ;;
+  n <- I_neg0 (L r) ;;
+  when n (vb <- load b ;;
+          if 0 <? vb then I_sub q (L q) (K 1) ;; I_add r (L r) (L b)
+          else I_add q (L q) (K 1) ;; I_sub r (L r) (L b)).
+Definition Int_divmod_w_old (sg : bool) (q a : loc) (b : Z) : M Z :=
+  x <- load a ;;
+  stor q (Z.quot x (Z.abs b)) ;;
+  let r := Z.abs (Z.rem x (Z.abs b)) in
+  n <- I_neg0 (L a) ;;
+  (if n && negb (r =? 0) then I_sub q (L q) (K 1) else skip) ;;
+  (if sg && (b <? 0) then I_neg q (L q) else skip) ;;
+  ret (if n && negb (r =? 0) then Z.abs b - r else r).
+Definition Int_powmod_old (res n : loc) (e : Z) (m : loc) : M unit :=
+  if e <? 0 then I_invert res (L n) (L m) ;; I_powm res (L res) (Z.abs e) (L m)
+  else I_powm res (L n) e (L m).
+
 (* ================================================================== Z-level wrappers for extraction *)
 (* positions of an operation are given as class indices (positive): equal index = same object *)
 Definition mk4 (ir ia ib ic : positive) (vr va vb vc : Z) : store :=
